@@ -90,8 +90,7 @@ theorem C08_driver_runs_reachable (sys : Sys σ Op ρ) (s s' : State σ Op ρ) (
 
 /-! ### instantiation: the wrapped object is the ideal deque -/
 
-theorem queueSys_excl : ∀ op, queueSys.mode op = .excl := fun _ => rfl
-theorem stackSys_excl : ∀ op, stackSys.mode op = .excl := fun _ => rfl
+-- `queueSys_excl` / `stackSys_excl` (every method of the current code is exclusive) live in Proofs/C08Lin.lean
 
 /-- **ConcurrentQueue: FIFO, exactly-once, no phantom.**  In every reachable state the values removed so far
     (in linearization order) followed by the current content are exactly the values offered so far (in
